@@ -5,14 +5,14 @@ Tuning curves of `NoisyQuadraticDistribution` on top of the polymorphic model `O
 (`cdf`, `ppf` of `OpdaModel/NoisyFloat.lean`) and of the integration loop `Opda.TrapLoop`:
 
     quantile_tuning_curve(ns, q, minimize) = ppf(1 - (1 - q)**(1/ns) if minimize else q**(1/ns))
-    average_tuning_curve(ns, minimize, atol) = max(0,lo) + min(0,hi) + trapezoid loop of 1[y>0] - F(y)**ns …
+    average_tuning_curve(ns, minimize, atol) = lo + trapezoid loop of 1 - F(y)**ns  resp. (1 - F(y))**ns …
 
 with `minimize = None ↦ self.convex`, `lo, hi = a − 6o, b + 6o`, `atol = None ↦ 1e-6·(hi − lo)`.
 -/
 namespace Opda.Noisy
 
 section
-variable {α : Type} [Add α] [Sub α] [Mul α] [Div α] [Neg α] [LT α] [DecidableLT α]
+variable {α : Type} [Add α] [Sub α] [Mul α] [Div α] [Neg α] [LT α] [DecidableLT α] [LE α] [DecidableLE α]
 
 /-- the level handed to `ppf` -/
 def level (F : Fns α) (minimize : Bool) (q nn : α) : α :=
@@ -33,22 +33,22 @@ def atolOf (F : Fns α) (d : Params α) (atol : Option α) : α :=
 `none` = `IntegrationError` -/
 def avgRunCapped (F : Fns α) (d : Params α) (ns : List α) (minimize : Option Bool) (atol : Option α)
     (rounds : Nat) : Option (Nat × List α × List α) :=
-  TrapLoop.runCapped F.n (ns.map fun nn => TrapLoop.gCur F.n F.pow (cdf F d) (minimize.getD d.convex) nn)
+  TrapLoop.runCapped F.n (ns.map fun nn => TrapLoop.gRep F.n F.pow (cdf F d) (minimize.getD d.convex) nn)
     (intLo F d) (intHi F d) (atolOf F d atol) rounds
 
 def avgRun (F : Fns α) (d : Params α) (ns : List α) (minimize : Option Bool) (atol : Option α) :
     Option (Nat × List α × List α) := avgRunCapped F d ns minimize atol 30
 
-/-- the same loop on the location-equivariant integrand `1 − Fⁿ` / `(1−F)ⁿ` integrated from `lo` (the repair
-proposed for finding F4; `Props/C09.navg_repaired_affine` is about this term); the value is `lo + T` -/
-def avgRunCappedRep (F : Fns α) (d : Params α) (ns : List α) (minimize : Option Bool) (atol : Option α)
+/-- LEGACY: the same loop on the pre-repair integrand `1[y>0] − Fⁿ` (finding F4; the value was
+`max(0,lo) + min(0,hi) + T`) -/
+def avgRunCappedLegacy (F : Fns α) (d : Params α) (ns : List α) (minimize : Option Bool) (atol : Option α)
     (rounds : Nat) : Option (Nat × List α × List α) :=
-  TrapLoop.runCapped F.n (ns.map fun nn => TrapLoop.gRep F.n F.pow (cdf F d) (minimize.getD d.convex) nn)
+  TrapLoop.runCapped F.n (ns.map fun nn => TrapLoop.gCur F.n F.pow (cdf F d) (minimize.getD d.convex) nn)
     (intLo F d) (intHi F d) (atolOf F d atol) rounds
 
 def averageTuningCurve (F : Fns α) (d : Params α) (ns : List α) (minimize : Option Bool) (atol : Option α) :
     Option (List α) :=
-  (avgRun F d ns minimize atol).map fun r => r.2.1.map fun t => TrapLoop.tail F.n (intLo F d) (intHi F d) + t
+  (avgRun F d ns minimize atol).map fun r => r.2.1.map fun t => intLo F d + t
 
 end
 end Opda.Noisy
